@@ -153,25 +153,19 @@ def run(ctx):
     okd = False
     for x in dec:
         sn = cfg.stmt_node(x)
-        g = [(norm(t), pol) for (t, pol, _g) in cfg.guards(sn)
-             if isinstance(t, ast.expr)]
-        okd = isinstance(x.op, ast.Sub) and norm(x.value) == '1' and any(
-            't.remaining_executions > 0' in t and pol for t, pol in g)
+        okd = isinstance(x.op, ast.Sub) and norm(x.value) == '1' and \
+            U.guarded(cfg, sn, 't.remaining_executions > 0', True)
     r3.check(okd and len(dec) == 1,
              ctx.construct(ad, extra='decrement only when > 0'),
              'remaining_executions is not decremented by one exactly when '
              'it is > 0', ctx.loc(ad))
     for nn, cc in dl:
-        g = [(norm(t), pol) for (t, pol, _g) in cfg.guards(nn)
-             if isinstance(t, ast.expr)]
-        r3.check(('t.remaining_executions == 0', True) in g,
+        r3.check(U.guarded(cfg, nn, 't.remaining_executions == 0', True),
                  ctx.construct(ad, extra='delete at zero'),
                  'the trigger is not deleted exactly when no executions '
                  'remain', ctx.loc(ad, cc))
     for nn, cc in up:
-        g = [(norm(t), pol) for (t, pol, _g) in cfg.guards(nn)
-             if isinstance(t, ast.expr)]
-        r3.check(('t.remaining_executions == 0', False) in g,
+        r3.check(U.guarded(cfg, nn, 't.remaining_executions == 0', False),
                  ctx.construct(ad, extra='update otherwise'),
                  'the trigger is advanced although no executions remain',
                  ctx.loc(ad, cc))
@@ -234,10 +228,8 @@ def run(ctx):
     okone = False
     for x in one:
         sn = ccfg.stmt_node(x)
-        g = [(norm(t), pol) for (t, pol, _g) in ccfg.guards(sn)
-             if isinstance(t, ast.expr)]
-        okone = ('not (pattern or count)', True) in g and \
-            ('first_time', True) in g
+        okone = U.guarded(ccfg, sn, 'pattern or count', False) and \
+            U.guarded(ccfg, sn, 'first_time', True)
     r4.check(okone, ctx.construct(ct, extra='first-time-only fires once'),
              'a trigger with only first_execution_time does not get '
              'count = 1', ctx.loc(ct))
